@@ -36,6 +36,8 @@ def jobs(tier):
     out = [{"name": "oilp_cgdp-pair-a2", "method": "oilp_cgdp", "algo": "dsa", "struct": "pair", "agents": 2},
            {"name": "oilp_cgdp-chain3-a2", "method": "oilp_cgdp", "algo": "dsa", "struct": "chain3", "agents": 2},
            {"name": "ilp_fgdp-pair-a2", "method": "ilp_fgdp", "algo": "maxsum", "struct": "pair", "agents": 2}]
+    # two constraints over the same pair of variables (two links between the two computations)
+    out.append({"name": "oilp_cgdp-pair_dbl-a2", "method": "oilp_cgdp", "algo": "dsa", "struct": "pair_dbl", "agents": 2})
     if tier == "thorough":
         out += [{"name": "oilp_cgdp-pair-a3", "method": "oilp_cgdp", "algo": "dsa", "struct": "pair", "agents": 3},
                 {"name": "oilp_cgdp-triangle-a2", "method": "oilp_cgdp", "algo": "dsa", "struct": "triangle", "agents": 2}]
@@ -142,6 +144,12 @@ def run(eng, p):
         eng.fail("unexpected placement variables in the model", detail=str(xvars))
         return
     regs = region(eng, "C24-oilp-cgdp-objective-drops-beta", p["method"] == "oilp_cgdp" and bool(pinned))
+    # second listed finding: two computations joined by several links (several constraints over the same pair)
+    pair_links = {}
+    for l in cg.links:
+        for pr in itertools.combinations(sorted(l.nodes), 2):
+            pair_links[pr] = pair_links.get(pr, 0) + 1
+    regs = regs + region(eng, "C24-oilp-cgdp-multi-link-load", p["method"] == "oilp_cgdp" and any(n > 1 for n in pair_links.values()))
     fgdp = p["method"] == "ilp_fgdp"
     # ilp_fgdp minimises -(load of the links kept inside an agent): objective == cost - total load
     obj_shift = len(list(cg.links)) if fgdp else 0
